@@ -17,7 +17,7 @@ from ..common import rng_for, b2j
 LEVEL = "exploration"
 SHARDS = {"quick": 1, "thorough": 16}
 REQUIRED = ("position_sweep_trees", "repacks_after_assignment", "packs_compared_with_reference_encoding", "reparse_compared", "assert_consistency_true", "insert_traces_compared",
-            "built_by_kwargs", "built_by_attrs", "built_by_mixed", "nested_trees", "boundary_int_values", "empty_lists", "absent_optionals",
+            "built_by_kwargs", "built_by_attrs", "built_by_mixed", "built_by_inplace", "nested_trees", "boundary_int_values", "empty_lists", "absent_optionals",
             "f2_probe_runs")
 MIN_NONTRIVIAL = 150
 RULE = {
@@ -111,7 +111,7 @@ def judge_tree(run, bench, pv, rng, mon):
     tree_stats(run, fam, pv)
     shape = common.stable_hash(tree_shape(pv))
     for v in ("g", "d"):
-        for how in ("kwargs", "attrs", "mixed"):
+        for how in ("kwargs", "attrs", "mixed", "inplace"):
             witness = {"source": driver.src_of(bench, v), "values": pv.to_json(), "built_by": how, "variant": v, "fam": fam}
             try:
                 pkt = monitors.build_packet(bench.loaded, v, pv, how, rng)
@@ -119,6 +119,15 @@ def judge_tree(run, bench, pv, rng, mon):
                 run.violation("constructing a packet from a consistent value tree raised %s: %s" % (type(e).__name__, e), witness, None)
                 continue
             run.count("built_by_%s" % how)
+            if how == "inplace":
+                try:
+                    fresh = monitors.pkt_to_pv(fam, fam["root"], bench.root(v)())
+                except Exception:
+                    fresh = None
+                if fresh is not None and fresh != model.defaults(fam, fam["root"]):
+                    run.violation("after a packet was filled by in-place list operations, a newly constructed packet of the class no longer holds the declared defaults",
+                                  dict(witness, new_default_packet=fresh.to_json(), declared=model.defaults(fam, fam["root"]).to_json()), None)
+                    continue
             nlog = len(mon.log())
             r = harness.lib_pack(pkt)
             run.case(key=(bench.skeleton, how, shape), nontrivial=len(want) > 1)
